@@ -7,6 +7,7 @@ import Driver.EngScan
 import Driver.EngWriter
 import Driver.EngRenumber
 import Driver.EngCnf
+import Driver.EngStream
 
 open Driver
 
@@ -18,6 +19,7 @@ def runLine (line : String) : String × String :=
   | some "writer" => runWriterCase line
   | some "renumber" => runRenumberCase line
   | some "cnf" => runCnfCase line
+  | some "stream" => runStreamCase line
   | _ => ("unknown-engine", "")
 
 partial def loop (h : IO.FS.Stream) (out : IO.FS.Stream) : IO Unit := do
